@@ -108,6 +108,16 @@ fn patterns(tier: Tier) -> Vec<(&'static str, Vec<u64>, Vec<u64>)> {
         ("one_symbol", vec![5, 5, 5, 5], vec![5, 5, 5, 5, 5, 5]),
         ("swap_adjacent", vec![0, 1, 2, 3, 4, 5], vec![0, 1, 3, 2, 4, 5]),
     ];
+    // long l (up to 15): sequences only slightly longer than l keep the exact oracle small (C(len,l)^2 states)
+    let mut a17 = r(0..17);
+    let mut b17 = r(0..17);
+    b17[16] = 99;
+    v.push(("len17_substitution_last", a17.clone(), b17.clone()));
+    b17 = r(0..17);
+    b17.swap(3, 4);
+    v.push(("len17_swap", a17.clone(), b17));
+    a17 = vec![0, 1, 2, 3, 0, 1, 2, 3, 0, 1, 2, 3, 0, 1, 2, 3, 4];
+    v.push(("len17_periodic_vs_shift", a17.clone(), a17.iter().skip(1).cloned().chain(std::iter::once(0)).collect()));
     if tier == Tier::Thorough {
         v.push(("repo_pattern_2", vec![0, 1, 2, 3, 4, 0, 1, 2, 3, 2, 4, 5], vec![0, 1, 2, 6, 4, 0, 7, 1, 2, 3, 2, 4, 5]));
         v.push(("shifted_by_5_len_16", r(0..16), r(5..21)));
@@ -123,7 +133,10 @@ pub fn run(rep: &mut Report) {
     let ms: Vec<u32> = vec![1, 4, 32, 64, 1024];
     let mut ci = 0u64;
     for (pname, pa, pb) in &pats {
-        for l in 1..=5usize {
+        for l in [1usize, 2, 3, 4, 5, 8, 12, 15] {
+            if l > 5 && !pname.starts_with("len17") {
+                continue;
+            }
             if pa.len() < l || pb.len() < l {
                 continue;
             }
@@ -131,7 +144,7 @@ pub fn run(rep: &mut Report) {
             for &m in &ms {
                 ci += 1;
                 let hsel = mix(&[ci, rep.seed, 0xC10]);
-                if rep.tier == Tier::Quick && hsel % 4 != 0 && !(*pname == "repo_pattern_1" && m == 1 && l == 1) {
+                if rep.tier == Tier::Quick && hsel % 4 != 0 && !(*pname == "repo_pattern_1" && m == 1 && l == 1) && !(l > 5 && m == 32) {
                     continue;
                 }
                 let cell = format!("{}/l={}/m={}", pname, l, m);
